@@ -1,13 +1,20 @@
 ----------------------------- MODULE J_FracMesh -----------------------------
 (***************************************************************************)
 (* C25 judge.  One case = one fracture network meshed by the real code:     *)
-(*   C.in  = [family |-> "lattice" | "tensor" | "simplex", dim,             *)
+(*   C.in  = [family |-> "lattice" | "scaled" | "tensor" | "simplex", dim,  *)
+(*            vol |-> <<num, den>> the volume of the domain,                 *)
 (*            box |-> <<bx,by,bz>> (the domain is [0,bx] x [0,by] x [0,bz]), *)
 (*            fracs |-> integer vertex lists (2 end points / 4 corners),     *)
 (*            lat   |-> (lattice family) the network N of FracMesh PART 1,   *)
 (*            path, args : how the driver called porepy (opaque here)]       *)
 (*   C.out = the exported md-grid O of FracMesh PART 2 (err # "" if the      *)
 (*            meshing raised: every clause that needs the grid then fails)   *)
+(* Scaled family: lattice networks on Cartesian grids with physical        *)
+(* dimensions L # number of cells (cart_grid(.., physdims), create_mdg       *)
+(* "cartesian" with target cell sizes, also sizes that do not divide the     *)
+(* extent): all clauses; the expected structure is compared through the     *)
+(* scaled lattice coordinates 2 n x / L (float tolerance), HostVolume        *)
+(* against the volume of the DOMAIN.                                         *)
 (* Lattice family (exact, tolerance 0): the seven validity clauses AND the  *)
 (* comparison with the unique expected structure (cells of every grid,      *)
 (* coupling pairs).  Tensor family (the same networks on non-uniform tensor *)
@@ -26,26 +33,47 @@
 EXTENDS Judge, FracMesh
 
 Lattice == C.in.family = "lattice"
+\* scaled family: the lattice network C.in.lat on the Cartesian grid with lat.box[i] cells on [0, L[i]];
+\* C.in.scale[i] = <<n_i, num(L_i), den(L_i)>>, C.in.cs[i] = the target cell size handed to create_mdg (<<0, 1>>: none)
+Scaled == C.in.family = "scaled"
 TolV == IF Lattice THEN 0 ELSE 64
 TolP == IF Lattice THEN 0 ELSE 2
 
 InFamily ==
   Check("InFamily",
-        /\ C.in.dim \in {2, 3} /\ Len(C.in.fracs) >= 1
-        /\ \A k \in 1..Len(C.in.fracs) : Len(C.in.fracs[k]) = (IF C.in.dim = 2 THEN 2 ELSE 4)
+        /\ C.in.dim \in {2, 3} /\ C.in.vol[2] >= 1
+        /\ ~Scaled => /\ Len(C.in.fracs) >= 1
+                      /\ \A k \in 1..Len(C.in.fracs) : Len(C.in.fracs[k]) = (IF C.in.dim = 2 THEN 2 ELSE 4)
+                      /\ C.in.vol = <<C.in.box[1] * C.in.box[2] * (IF C.in.dim = 3 THEN C.in.box[3] ELSE 1), 1>>
         /\ Lattice => /\ Admissible(C.in.lat) /\ C.in.lat.dim = C.in.dim /\ C.in.lat.box = C.in.box
                       /\ Len(C.in.lat.fracs) = Len(C.in.fracs)
                       \* the vertex lists describe the lattice boxes
                       /\ \A k \in 1..Len(C.in.fracs) :
                            LET f == C.in.lat.fracs[k]  V == C.in.fracs[k] IN
-                           \A i \in 1..3 : {V[n][i] : n \in 1..Len(V)} = {f[1][i], f[2][i]})
+                           \A i \in 1..3 : {V[n][i] : n \in 1..Len(V)} = {f[1][i], f[2][i]}
+        /\ Scaled => /\ Admissible(C.in.lat) /\ C.in.lat.dim = C.in.dim
+                     /\ \A i \in 1..3 :
+                          LET s == C.in.scale[i] IN
+                          /\ s[1] = C.in.lat.box[i] /\ s[3] >= 1 /\ (s[1] > 0 => s[2] >= 1)
+                          \* the number of cells is the documented rounding of extent / cell size
+                          /\ (s[1] > 0 /\ C.in.cs[i][1] > 0) => s[1] = RoundedCells(<<s[2], s[3]>>, C.in.cs[i])
+                     /\ LET D == {i \in 1..3 : C.in.scale[i][1] > 0}
+                            PN[S \in SUBSET D] == IF S = {} THEN 1 ELSE LET i == CHOOSE i \in S : TRUE IN C.in.scale[i][2] * PN[S \ {i}]
+                            PD[S \in SUBSET D] == IF S = {} THEN 1 ELSE LET i == CHOOSE i \in S : TRUE IN C.in.scale[i][3] * PD[S \ {i}]
+                        IN Cardinality(D) = C.in.dim /\ C.in.vol[1] * PD[D] = C.in.vol[2] * PN[D])
 
-C1(t) == CoupledBothSides(C.in, C.out, t) /\ (Lattice => LatticePairs(C.in.lat, C.out))
+ScL(x) == ScaledLoc(C.in.scale, x)
+C1(t) == /\ CoupledBothSides(C.in, C.out, t)
+         /\ Lattice => LatticePairs(C.in.lat, C.out)
+         /\ Scaled => LatticePairsW(C.in.lat, C.out, ScL)
 C2(t) == FacesCoincide(C.in, C.out, t)
 C3(t) == OppositeNormals(C.in, C.out, t)
 C4 == TagsExact(C.in, C.out)
 C5(t) == HostVolumeOK(C.in, C.out, t)
-C6(t) == OnFractures(C.in, C.out, t) /\ (Lattice => LatticeCells(C.in.lat, C.out))
+\* scaled family: the cells of the host tile the DOMAIN [0, L] and the cells of every fracture grid are exactly the
+\* cells of its fracture (on the fracture, adding up to it) - read off the scaled lattice coordinates
+C6(t) == IF Scaled THEN LatticeCellsW(C.in.lat, C.out, ScL, LAMBDA x : ScaledOn(C.in.scale, x, t))
+         ELSE OnFractures(C.in, C.out, t) /\ (Lattice => LatticeCells(C.in.lat, C.out))
 C7(t) == MortarMatch(C.in, C.out, t)
 
 EachCellCoupledBothSides == Check("EachCellCoupledBothSides", C1(TolV))
